@@ -89,6 +89,48 @@ def small_specs():
         person(i, "contact"),
         N(i, "methods", kids=[N(i, "methodStep", kids=[N(i, "description", kids=[N(i, "para", "x")])])]),
         N(i, "project", kids=[N(i, "title", "P"), person(i, "personnel", role=True)])])))
+    # one element of every kind the evaluator has a rule for, with the sub-structures its rules look at present in
+    # one place and absent in another (physical / dataFormat / textFormat / externallyDefinedFormat / binaryRasterFormat)
+    i = Ids()
+
+    def physical(fmt):
+        kids = [N(i, "objectName", "f.csv"), N(i, "size", "10", attrs=[("unit", "byte")]), N(i, "authentication", "abc", attrs=[("method", "MD5")])]
+        if fmt == "text":
+            kids.append(N(i, "dataFormat", kids=[N(i, "textFormat", kids=[N(i, "recordDelimiter", "\\n"), N(i, "attributeOrientation", "column"),
+                                                                         N(i, "simpleDelimited", kids=[N(i, "fieldDelimiter", ",")])])]))
+        elif fmt == "text-bare":
+            kids.append(N(i, "dataFormat", kids=[N(i, "textFormat", kids=[N(i, "attributeOrientation", "column")])]))
+        elif fmt == "external":
+            kids.append(N(i, "dataFormat", kids=[N(i, "externallyDefinedFormat", kids=[N(i, "formatName", "NetCDF")])]))
+        elif fmt == "raster":
+            kids.append(N(i, "dataFormat", kids=[N(i, "binaryRasterFormat", kids=[N(i, "rowColumnOrientation", "column"), N(i, "nbits", "8"), N(i, "byteorder", "little")])]))
+        elif fmt == "empty":
+            kids.append(N(i, "dataFormat"))
+        return N(i, "physical", kids=kids)
+
+    def table(fmt, desc=True, nrec=True):
+        kids = [N(i, "entityName", "t")]
+        if desc:
+            kids.append(N(i, "entityDescription", "a table"))
+        if fmt is not None:
+            kids.append(physical(fmt))
+        kids.append(N(i, "attributeList", kids=[N(i, "attribute", kids=[N(i, "attributeName", "a"), N(i, "attributeDefinition", "d")])]))
+        if nrec:
+            kids.append(N(i, "numberOfRecords", "3"))
+        return N(i, "dataTable", kids=kids)
+    out.append(("entities", N(i, "dataset", kids=[
+        N(i, "title", "A"), person(i, "creator"), person(i, "metadataProvider", orcid=False), person(i, "associatedParty", role=True, email=False),
+        N(i, "intellectualRights", kids=[N(i, "para", "CC0")]),
+        person(i, "contact"),
+        N(i, "methods", kids=[N(i, "methodStep", kids=[N(i, "description")]),
+                              N(i, "methodStep", kids=[N(i, "description", kids=[N(i, "para", "how")])])]),
+        table("text"), table("text-bare", desc=False), table("external"), table("raster", nrec=False), table("empty"), table(None),
+        N(i, "otherEntity", kids=[N(i, "entityName", "o"), N(i, "entityDescription", "d"), physical("external"), N(i, "entityType", "x")]),
+        N(i, "otherEntity", kids=[N(i, "entityName", "o2"), N(i, "entityType", "x")])])))
+    # sizes past 256: one parent with 300 children of one name
+    i = Ids()
+    out.append(("wide", N(i, "dataset", kids=[N(i, "title", "W"), person(i, "creator"),
+                                              N(i, "keywordSet", kids=[N(i, "keyword", "k%d" % k) for k in range(300)]), person(i, "contact")])))
     # invalid: unknown node, wrong order, missing required child, content where none is allowed, foreign attribute
     i = Ids()
     out.append(("invalid:unknown-node", N(i, "dataset", kids=[N(i, "title", "T"), N(i, "fooBar", "x", kids=[N(i, "title", "inner")]), person(i, "creator"), person(i, "contact")])))
@@ -223,6 +265,20 @@ def deletion_variants(sn):
 AUX_NAMES = ["title", "creator", "contact", "para", "fooBar", "permission"]
 
 
+def fresh(x):
+    """a NEW str object with the same characters (never an interned literal / shared constant)"""
+    if not isinstance(x, str):
+        return x
+    return "".join(list(x)) if len(x) != 1 else (x + "_")[:1]
+
+
+def freshen(sn):
+    return {"id": fresh(sn["id"]), "name": fresh(sn["name"]), "content": fresh(sn["content"]), "tail": fresh(sn["tail"]),
+            "prefix": fresh(sn["prefix"]), "attrs": [[fresh(a), fresh(b)] for a, b in sn["attrs"]],
+            "extras": [[fresh(a), fresh(b)] for a, b in sn["extras"]], "nsmap": [[fresh(a), fresh(b)] for a, b in sn["nsmap"]],
+            "kids": [freshen(k) for k in sn["kids"]]}
+
+
 class Env:
     """one forest: the tree, detached candidate children, an equal twin of the tree"""
 
@@ -249,11 +305,11 @@ class Env:
             self._retag(tw)
             self.twin = NL.build(tw, attach=True)
         else:
-            self.root = NL.build(spec["snapshot"], attach=spec.get("attach", True))
+            self.root = NL.build(freshen(spec["snapshot"]), attach=spec.get("attach", True))
             tw = copy.deepcopy(spec["snapshot"])
             self._retag(tw)
-            self.twin = NL.build(tw, attach=spec.get("attach", True))
-        self.aux = [Node(nm, id="aux%d" % k, content=("c" if k % 2 else None)) for k, nm in enumerate(AUX_NAMES)]
+            self.twin = NL.build(freshen(tw), attach=spec.get("attach", True))
+        self.aux = [Node(fresh(nm), id=fresh("aux%d" % k), content=(fresh("c") if k % 2 else None)) for k, nm in enumerate(AUX_NAMES)]
         self.roots = [self.root] + self.aux + [self.twin]
         self.tree_nodes = self._pre(self.root)
         self.nodes = self.tree_nodes + self.aux + self._pre(self.twin)
@@ -287,7 +343,7 @@ class Env:
         from metapype.model.node import Node
         from metapype.eml import rule
         st = NL.deep_state(self.roots)
-        st["store_map"] = sorted((str(k), self.index.get(id(v), -1)) for k, v in Node.store.items())
+        st["store_map"] = sorted((str(k), self.index.get(id(v), "foreign %s@%x" % (type(v).__name__, id(v)))) for k, v in Node.store.items())
         st["rules"] = hash(json.dumps([rule.rules_dict, rule.node_mappings], sort_keys=False, default=str))
         return st
 
@@ -383,19 +439,19 @@ def prepare(env, d):
                 return mp_io.graph(n, 0)
         return go, (lambda r: [r, buf.getvalue()])
     if op == "find_child":
-        return (lambda: n.find_child(d["name"])), ident
+        return (lambda: n.find_child(fresh(d["name"]))), ident
     if op == "find_all_children":
-        return (lambda: n.find_all_children(d["name"])), ident
+        return (lambda: n.find_all_children(fresh(d["name"]))), ident
     if op == "find_descendant":
-        return (lambda: n.find_descendant(d["name"])), ident
+        return (lambda: n.find_descendant(fresh(d["name"]))), ident
     if op == "find_all_descendants":
         acc = [env.nodes[k] for k in d.get("seed", [])]
-        return (lambda: n.find_all_descendants(d["name"], acc)), (lambda r: [r, acc])
+        return (lambda: n.find_all_descendants(fresh(d["name"]), acc)), (lambda r: [r, acc])
     if op == "find_single_node_by_path":
-        path = list(d["path"])
+        path = [fresh(x) for x in d["path"]]
         return (lambda: n.find_single_node_by_path(path)), ident
     if op == "find_all_nodes_by_path":
-        path = list(d["path"])
+        path = [fresh(x) for x in d["path"]]
         return (lambda: n.find_all_nodes_by_path(path)), ident
     if op == "get_ancestry":
         return (lambda: n.get_ancestry()), ident
@@ -405,9 +461,9 @@ def prepare(env, d):
     if op == "list_attributes":
         return (lambda: n.list_attributes()), ident
     if op == "attribute_value":
-        return (lambda: n.attribute_value(d["name"])), ident
+        return (lambda: n.attribute_value(fresh(d["name"]))), ident
     if op == "get_node_instance":
-        key = d["id"] if "id" in d else n.id
+        key = fresh(d["id"] if "id" in d else n.id)
         return (lambda: Node.get_node_instance(key)), ident
     if op == "child_insert_index":
         c = env.nodes[d["c"]]
@@ -438,7 +494,7 @@ def perform(env, d, wrap=None):
 
 def instances(env, rng, per_op=2):
     """call descriptors covering every operation, error paths included"""
-    from metapype.eml import rule
+    from metapype.eml import rule, evaluate
     n = env.n_tree
     tree = env.tree_nodes
     names = sorted({x.name for x in tree})
@@ -468,7 +524,7 @@ def instances(env, rng, per_op=2):
     for _ in range(per_op):
         out.append({"op": "validate.node.ff", "t": pick()})
         out.append({"op": "validate.node.collect", "t": pick()})
-        out.append({"op": "evaluate.node", "t": pick(lambda x: x.name in ("dataset", "title", "creator", "contact", "description", "individualName", "personnel"))})
+        out.append({"op": "evaluate.node", "t": pick(lambda x: x.name in evaluate.rules)})
         out.append({"op": "find_child", "t": inner(), "name": rname()})
         out.append({"op": "find_all_children", "t": inner(), "name": rname()})
         out.append({"op": "find_descendant", "t": inner(), "name": rname()})
@@ -681,12 +737,41 @@ def sweep_calls(env, rng, starts):
     return out
 
 
+def related_calls(env, starts):
+    """arguments that are already related: child_insert_index with every EXISTING child of the parent (and every detached
+    candidate), is_equal of a node with itself, with each of its own children, with its twin; evaluate / validate of every
+    start node; get_node_instance of every start"""
+    from metapype.eml import rule, evaluate
+    out = []
+    for k in starts:
+        n = env.nodes[k]
+        out.append({"op": "is_equal", "t": k, "c": k})
+        if k < env.n_tree:
+            out.append({"op": "is_equal", "t": k, "c": env.twin0 + k})
+        out.append({"op": "get_node_instance", "t": k})
+        if n.name in evaluate.rules:
+            out.append({"op": "evaluate.node", "t": k})
+        out.append({"op": "validate.node.collect", "t": k})
+        for c in n.children:
+            ci = env.index[id(c)]
+            out.append({"op": "is_equal", "t": k, "c": ci})
+            out.append({"op": "is_equal", "t": ci, "c": k})
+            out.append({"op": "child_index", "t": k, "c": ci})
+            if n.name in rule.node_mappings:
+                out.append({"op": "child_insert_index", "t": k, "c": ci})
+                out.append({"op": "child_insert_index", "t": k, "c": ci, "kept": True})
+        if n.name in rule.node_mappings and n.children:
+            for a in range(len(env.aux)):
+                out.append({"op": "child_insert_index", "t": k, "c": env.n_tree + a})
+    return out
+
+
 def random_edits(env, rng, k=4):
     """in-place edits through the public API that keep the set and order of nodes"""
     out = []
     for _ in range(k):
         i = rng.randrange(env.n_tree)
-        kind = rng.choice(["content", "attr", "attr-del", "tail", "extras", "prefix", "ns"])
+        kind = rng.choice(["content", "attr", "attr-del", "tail", "extras", "prefix", "ns", "attr-direct", "nsmap-direct", "extras-direct"])
         if kind == "content":
             out.append(["content", i, rng.choice(["edited <&>", None, "", "12", "word " * 22])])
         elif kind == "attr":
@@ -699,6 +784,12 @@ def random_edits(env, rng, k=4):
             out.append(["extras", i, "xml:lang", "fr"])
         elif kind == "prefix":
             out.append(["prefix", i, rng.choice([None, "eml", "q"])])
+        elif kind == "attr-direct":
+            out.append(["attr-direct", i, rng.choice(["id", "directory", "zz"]), rng.choice(["", "d"])])
+        elif kind == "nsmap-direct":
+            out.append(["nsmap-direct", i, rng.choice(["q", "eml"]), rng.choice(["", "urn:direct"])])
+        elif kind == "extras-direct":
+            out.append(["extras-direct", i, "xsi:type", "x"])
         else:
             out.append(["ns", i, rng.choice(["q", "eml"]), "urn:edited"])
     return out
@@ -722,6 +813,12 @@ def apply_edits(env, edits):
             n.prefix = e[2]
         elif e[0] == "ns":
             n.add_namespace(e[2], e[3])
+        elif e[0] == "attr-direct":          # legal edits through the exposed properties
+            n.attributes[fresh(e[2])] = fresh(e[3])
+        elif e[0] == "nsmap-direct":
+            n.nsmap[fresh(e[2])] = fresh(e[3])
+        elif e[0] == "extras-direct":
+            n.extras[fresh(e[2])] = fresh(e[3])
 
 
 def after_edits_vs_fresh(spec, calls, edits):
@@ -739,6 +836,15 @@ def after_edits_vs_fresh(spec, calls, edits):
     env2 = Env({"snapshot": sn2, "attach": False})
     fresh = [perform(env2, d) for d in calls]
     return same, fresh, sn2
+
+
+def sweep_starts(env, rng, cap=130, n_inner=40, n_leaves=8):
+    """every node of a small tree; of a big one the root, inner nodes and a few leaves"""
+    if env.n_tree <= cap:
+        return list(range(env.n_tree))
+    inner = [k for k in range(env.n_tree) if env.tree_nodes[k].children]
+    leaves = [k for k in range(env.n_tree) if not env.tree_nodes[k].children]
+    return sorted(set([0] + (inner if len(inner) <= n_inner else rng.sample(inner, n_inner)) + rng.sample(leaves, min(n_leaves, len(leaves)))))
 
 
 class Runner:
@@ -769,6 +875,14 @@ class Runner:
             self.fresh()     # continue on an unmodified tree
             return False
         return True
+
+    def timed(self, name, fn, *a, **kw):
+        import time
+        t0 = time.time()
+        fn(*a, **kw)
+        acc = self.ctx.extra.setdefault("seconds_by_phase", {})
+        key = name + ":" + self.label.split(":")[0]
+        acc[key] = round(acc.get(key, 0.0) + time.time() - t0, 2)
 
     def singles(self):
         self.base = []
@@ -821,18 +935,19 @@ class Runner:
             self.ctx.count("permutations")
 
     def sweep(self, starts):
-        calls = sweep_calls(self.env, self.rng, starts)
+        calls = sweep_calls(self.env, self.rng, starts) + related_calls(self.env, starts)
         for d in calls:
             r = perform(self.env, d)
             self.ctx.case((self.label, json.dumps(d, sort_keys=True)), nontrivial=True)
             self.ctx.count("path sweep calls")
             if not self.check_state([d], d["op"]):
                 continue
-            r2 = perform(self.env, d)
-            if r2 != r:
-                self.ctx.fail("C11:" + d["op"], f"{d['op']} returns something else when repeated on the same tree",
-                              self.replay_obj([d, d], {"first": r, "second": r2}))
-            self.check_state([d, d], d["op"])
+            if self.env.n_tree <= 60:
+                r2 = perform(self.env, d)
+                if r2 != r:
+                    self.ctx.fail("C11:" + d["op"], f"{d['op']} returns something else when repeated on the same tree",
+                                  self.replay_obj([d, d], {"first": r, "second": r2}))
+                self.check_state([d, d], d["op"])
 
     def edited(self, rounds):
         """statelessness: every call again on the same objects after in-place edits == on a fresh identical tree"""
@@ -848,7 +963,7 @@ class Runner:
                 self.ctx.case(None, nontrivial=False)
                 if a != b:
                     self.ctx.fail("C11:" + d["op"], f"result of {d['op']} on a tree edited in place differs from its result on a freshly built "
-                                  "identical tree (something remembered from the calls before the edit)",
+                                  "identical tree (something remembered from earlier calls, or an earlier call of this sequence modified the edited tree)",
                                   self.replay_obj(calls, {"edits": edits, "call": d, "same_objects": a, "fresh_tree": b}))
                     break
         self.fresh()
@@ -882,54 +997,54 @@ def run(ctx, only_spec=None):
     for k, (lbl, spec) in enumerate(specs):
         r = Runner(ctx, spec, lbl, rng, per_op=2)
         ctx.count("tree:" + lbl.split(":")[0])
-        r.singles()
-        r.sweep(list(range(r.env.n_tree)))
-        r.pairs()
+        r.timed("singles", r.singles)
+        r.timed("sweep", r.sweep, sweep_starts(r.env, rng))
+        r.timed("pairs", r.pairs)
         share = n_perm // len(specs) + (1 if k < n_perm % len(specs) else 0)
-        r.permutations(share)
-        r.edited(6 if thorough else 2)
-        r.traces(traces)
+        r.timed("permutations", r.permutations, share)
+        r.timed("edited", r.edited, 6 if thorough else 2)
+        r.timed("traces", r.traces, traces)
     # random variants of the small trees (attributes / content / children dropped, added, changed)
-    bases = small_specs()
+    bases = [b for b in small_specs() if b[0] != "wide"]
     n_var = 120 if thorough else 24
     for k in range(n_var):
         lbl, sn = bases[k % len(bases)]
         vsn, how = mutate_spec(rng, sn)
         r = Runner(ctx, {"snapshot": vsn, "attach": True}, "variant:" + lbl + ":" + "+".join(how), rng, per_op=2)
         ctx.count("tree:variant")
-        r.singles()
-        r.sweep(list(range(r.env.n_tree)))
-        r.pairs(limit=120)
-        r.permutations(3)
-        r.edited(1)
+        r.timed("singles", r.singles)
+        r.timed("sweep", r.sweep, sweep_starts(r.env, rng) if thorough else sweep_starts(r.env, rng, cap=0, n_inner=8, n_leaves=3))
+        r.timed("pairs", r.pairs, limit=120)
+        r.timed("permutations", r.permutations, 3)
+        r.timed("edited", r.edited, 1)
         if k < 8:
-            r.traces(traces)
+            r.timed("traces", r.traces, traces)
     # single deletions: every attribute (all of them), contents and child subtrees (a sample in the quick tier)
     dels = {"attr": [], "content": [], "child": []}
     for lbl, sn in bases:
         for kind, what, vsn in deletion_variants(sn):
             dels[kind].append((lbl + ":" + what, vsn))
     for kind in ("content", "child"):
-        if not thorough and len(dels[kind]) > 25:
-            dels[kind] = rng.sample(dels[kind], 25)
+        if not thorough and len(dels[kind]) > 15:
+            dels[kind] = rng.sample(dels[kind], 15)
     for kind in ("attr", "content", "child"):
         for lbl, vsn in dels[kind]:
             r = Runner(ctx, {"snapshot": vsn, "attach": True}, "without:" + lbl, rng, per_op=1)
             ctx.count("tree:without-one-" + kind)
-            r.singles()
-            r.permutations(1)
+            r.timed("singles", r.singles)
+            r.timed("permutations", r.permutations, 1)
     if os.path.exists(os.path.join(common.REPO, full[1]["source"])):
         r = Runner(ctx, full[1], full[0], rng, per_op=3)
         ctx.count("tree:eml.xml")
         ctx.extra["eml_xml_nodes"] = r.env.n_tree
-        r.singles()
+        r.timed("singles", r.singles)
         inner = [k for k in range(r.env.n_tree) if r.env.tree_nodes[k].children]
-        r.sweep([0] + rng.sample(inner, min(len(inner), 40 if thorough else 12)) +
+        r.timed("sweep", r.sweep, [0] + rng.sample(inner, min(len(inner), 40 if thorough else 12)) +
                 rng.sample([k for k in range(r.env.n_tree) if k not in inner], 5))
-        r.edited(3 if thorough else 1)
-        r.pairs(limit=None if thorough else 80)
-        r.permutations(10 if thorough else 2)
-        r.traces(traces)
+        r.timed("edited", r.edited, 3 if thorough else 1)
+        r.timed("pairs", r.pairs, limit=None if thorough else 80)
+        r.timed("permutations", r.permutations, 10 if thorough else 2)
+        r.timed("traces", r.traces, traces)
     NL.reset_store()
     # every operation was exercised
     missing = [o for o in OPS if not ctx.dist.get("op:" + o)]
